@@ -15,12 +15,16 @@ type CodeWriter struct {
 	WriteSemicolons bool
 
 	pendings []rune
+	last     byte // last byte written, used to keep adjacent operators apart
 }
 
 // WriteString writes a string to the buffer
 func (cw *CodeWriter) WriteString(s string) {
 	cw.flushPending()
 	cw.Builder.WriteString(s)
+	if len(s) > 0 {
+		cw.last = s[len(s)-1]
+	}
 	if cw.Mapper == nil {
 		return
 	}
@@ -31,6 +35,7 @@ func (cw *CodeWriter) WriteString(s string) {
 func (cw *CodeWriter) WriteRune(r rune) {
 	cw.flushPending()
 	cw.Builder.WriteRune(r)
+	cw.last = byte(r)
 	if cw.Mapper == nil {
 		return
 	}
@@ -38,6 +43,22 @@ func (cw *CodeWriter) WriteRune(r rune) {
 		cw.Mapper.AdvanceLine()
 	} else {
 		cw.Mapper.AdvanceColumn(1)
+	}
+}
+
+// SeparateOperator writes a space when the operator about to be written would otherwise fuse with
+// the previous one into a different token (`- -x` -> `--x`, `a + ++b` -> `a+++b`, `a < !--b` -> `a<!--b`,
+// `a-- > b` -> `a-->b`). Call it before recording the operator's mapping.
+func (cw *CodeWriter) SeparateOperator(operator string) {
+	if len(cw.pendings) > 0 || operator == "" {
+		return
+	}
+	switch {
+	case cw.last == '+' && operator[0] == '+',
+		cw.last == '-' && operator[0] == '-',
+		cw.last == '-' && operator[0] == '>',
+		cw.last == '<' && operator[0] == '!':
+		cw.WriteRune(' ')
 	}
 }
 
